@@ -33,6 +33,22 @@ Theorem C22_procedures_safe : forall n ps k,
 Proof. exact c22_procs_safe. Qed.
 Print Assumptions C22_procedures_safe.
 
+(* First finalization wins: whatever is written later (also a snapshot of another chain that contains
+   the same transaction), a transaction's finalization record keeps naming the snapshot that first
+   finalized it, and a snapshot all of whose members are already finalized changes neither the
+   finalization records nor the stored outputs. *)
+Theorem C22_first_finalization_kept : forall l st t f,
+  lookup t (fins st) = Some f -> lookup t (fins (exec st l)) = Some f.
+Proof. exact fins_kept. Qed.
+Print Assumptions C22_first_finalization_kept.
+
+Theorem C22_second_inclusion_changes_nothing : forall st s ch r txs,
+  (forall t, In t txs -> lookup t (fins st) <> None) ->
+  fins (exec_call st (CWriteSnap s ch r txs false 0)) = fins st /\
+  outs (exec_call st (CWriteSnap s ch r txs false 0)) = outs st.
+Proof. exact second_inclusion_no_change. Qed.
+Print Assumptions C22_second_inclusion_changes_nothing.
+
 (* The window is opened by StartNewRound(_, 0) only - the first call of node acceptance. *)
 Theorem C22_window_opened_only_by_accept : forall st c,
   in_accept_window st = false -> (forall ch, c <> CStartRound ch 0) ->
